@@ -6,6 +6,7 @@ from typing import (
     Dict,
     Literal,
     Mapping,
+    MutableMapping,
     Optional,
     Pattern,
     Sequence,
@@ -13,6 +14,7 @@ from typing import (
     Union,
 )
 
+from apischema.cache import CacheAwareDict
 from apischema.constraints import Constraints
 from apischema.metadata.keys import SCHEMA_METADATA
 from apischema.types import AnyType, MetadataMixin, Number, Undefined
@@ -137,7 +139,7 @@ def schema(
     )
 
 
-_schemas: Dict[Any, Schema] = {}
+_schemas: MutableMapping[Any, Schema] = CacheAwareDict({})
 
 
 def get_schema(tp: AnyType) -> Optional[Schema]:
